@@ -37,7 +37,10 @@ def lobj_of(plan):
 
 def node_id(info, plan=None):
     """Field instance a ResolveInfo belongs to: the field fN, or - below the second item of the list-of-objects node - its copy."""
-    n = int(str(info.path[-1])[1:])
+    last = str(info.path[-1])
+    if not (last[:1] == "f" and last[1:].isdigit()):
+        return 0            # a meta field (__typename): not a field instance of the plan
+    n = int(last[1:])
     lo = lobj_of(plan) if plan is not None else None
     if lo:
         L, n0 = lo
@@ -116,7 +119,11 @@ def build(plan):
         return "f%d%s%s%s" % (i, "(x: $nv)" if nodes[i - 1]["out"] == "argerr" else "", d, (" { %s }" % sel(i)) if nodes[i - 1]["out"] in COMPOSITE else "")
 
     def sel(p):
-        return " ".join(one(i) for i in kids.get(p, []))
+        parts = [one(i) for i in kids.get(p, [])]
+        if p == 0 and tn_at(plan) is not None:
+            # gamma tn: the meta field __typename written among the top-level fields (its place in the response is its place here)
+            parts.insert(tn_at(plan), "__typename")
+        return " ".join(parts)
     # gamma variants of the SAME abstract plan (CollectFields-equivalent documents)
     tops = kids.get(0, [])
     frags = []
@@ -141,6 +148,26 @@ def build(plan):
     return schema, query, kids
 
 
+def tn_at(plan):
+    """Position of __typename among the top-level selections, or None (only in documents that select the root fields directly)."""
+    v = plan.get("variant") or {}
+    if v.get("tn") is None or v.get("wrap", "none") != "none" or v.get("dup"):
+        return None
+    tops = sum(1 for n in plan["nodes"] if n["parent"] == 0)
+    return 1 + v["tn"] % tops         # never first: after at least one ordinary field
+
+
+def argdef(plan):
+    """gamma argdef: fields whose arguments fail coercion have NO resolver - the parent value is a dict holding a value for them
+    and the library's default resolver would serve it (if it were called: the failed coercion comes first)."""
+    v = plan.get("variant") or {}
+    return bool(v.get("argdef")) and v.get("style", "resolver") != "method"
+
+
+def _argerr_kids(plan, n):
+    return {"f%d" % i: 99 for i, x in enumerate(plan["nodes"], 1) if x["parent"] == n and x["out"] == "argerr" and not x.get("item")}
+
+
 def behave(plan, n):
     from py_gql.exc import ResolverError
     out = plan["nodes"][n - 1]["out"]
@@ -154,10 +181,11 @@ def behave(plan, n):
         return [n, None, n]
     if out == "lnn":
         return [n, None]
+    extra = _argerr_kids(plan, plan["nodes"][n - 1].get("of") or n) if argdef(plan) else {}
     if out == "obj":
-        return {"__node__": n}
+        return dict(extra, __node__=n)
     if out == "lobj":
-        return [{"__node__": n, "item": 0}, {"__node__": n, "item": 1}]
+        return [dict(extra, __node__=n, item=0), dict(extra, __node__=n, item=1)]
     if out == "err":
         if (plan.get("variant") or {}).get("err") == "completion":
             return n
@@ -211,6 +239,8 @@ def set_resolvers(schema, plan, kids, make):
             if plan["nodes"][i - 1]["out"] == "argerr":
                 # the field declares `x: Int! = 3`; its resolver must never run (argument coercion fails first)
                 r = (lambda root, ctx, info, x=None, _r=r: _r(root, ctx, info))
+                if argdef(plan):
+                    continue        # no resolver of its own: the parent dict holds a value the default resolver would return
             if p == 0 and root is not None:
                 setattr(root, "f%d" % i, (lambda ctx, info, _r=r, **kw: _r(root, ctx, info, **kw)))
             else:
@@ -218,6 +248,8 @@ def set_resolvers(schema, plan, kids, make):
             if plan["nodes"][i - 1]["out"] in COMPOSITE:
                 visit(schema.get_type("T%d" % i), i)
     visit(schema.mutation_type if plan["op"] == "mutation" else schema.query_type, 0)
+    if root is None and argdef(plan):
+        root = _argerr_kids(plan, 0) or None
     return root
 
 
@@ -240,7 +272,10 @@ def expected_data(plan, data):
         if v["k"] == "lobj":
             return [[[name(k["id"]), conv(k["v"], k["id"])] for k in v["kids"] if k["item"] == item] for item in (0, 1)]
         return "CRASH"
-    return [[name(t["id"]), conv(t["v"], t["id"])] for t in data]
+    out = [[name(t["id"]), conv(t["v"], t["id"])] for t in data]
+    if tn_at(plan) is not None:
+        out.insert(tn_at(plan), ["__typename", "Root"])
+    return out
 
 
 def expected_errors(plan, errs):
@@ -391,8 +426,9 @@ class FakePool:
     def submit(self, fn, *a, **kw):
         f = Future()
         n = node_id(a[2], self.plan)
-        self.submitted.append(n)
-        if self.plan["nodes"][n - 1]["mode"] == "sync":
+        if n:
+            self.submitted.append(n)
+        if n == 0 or self.plan["nodes"][n - 1]["mode"] == "sync":
             self._run(f, fn, a, kw)
         else:
             self.q[n] = (f, fn, a, kw)
@@ -484,8 +520,9 @@ def _make_custom_runtime(plan, submitted):
         def submit(self, fn, *a, **kw):
             d = Deferred()
             n = node_id(a[2], plan)
-            submitted.append(n)
-            if plan["nodes"][n - 1]["mode"] == "sync":
+            if n:
+                submitted.append(n)
+            if n == 0 or plan["nodes"][n - 1]["mode"] == "sync":
                 self._run(d, fn, a, kw)
             else:
                 self.q[n] = (d, fn, a, kw)
